@@ -12,6 +12,8 @@ void World::exec(const Step &s)
     cur_drop = s.drop;
     cur_dropk = s.dropk;
     hit_index = 0;
+    desc.str("");
+    const size_t obs_before = obs.size();
     g_sim_clock++;
     const std::string &op = s.op;
     stats.opcount[op]++;
@@ -61,12 +63,24 @@ void World::exec(const Step &s)
     cur_drop = 0;
     cur_dropk = 0;
     if (hit_index) stats.fired["ct_hits_seen"] += long(hit_index);
+    {
+        std::ostringstream o;
+        static const char* ocn[] = { "ok", "skip", "declined", "error", "no-oracle", "abandon" };
+        o << "#" << cur_step << " c" << s.client << " " << op;
+        if (obs.size() > obs_before) o << " [" << ocn[obs.back().outcome % 6] << "]";
+        if (s.drop) o << " drop=" << s.drop << "/1000";
+        if (s.dropk) o << " dropk=" << s.dropk;
+        o << " " << desc.str();
+        story.push_back(o.str());
+        if (tracing) { fprintf(stderr, "%s\n", o.str().c_str()); fflush(stderr); }
+    }
 }
 
 bool World::run()
 {
     g_world = this;
     g_sim_clock = 0;
+    tracing = getenv("SIM_TRACE") != nullptr;
     startLibrary(plan.cfg);
     createDomains();
     forests.clear();
